@@ -52,7 +52,7 @@ CHECKS = {
          "TLC-enumerated refresh histories replayed into real Check + TLC trace validation (RefreshUsesLatest, RefreshMerge)"),
  "C12": ("model_checking", "6 C12",
          "Both stores are validated operation by operation (result and projected real state) against SessionMap via StoreTrace.tla on TLC-generated transition-covering sequences and random long histories routed over two Redis-backed instances, with single failing Redis commands; "
-         "concurrent memory-store histories - also over sessions that have timed out and with the store's clean-up running, then in a race-detector build of the harness whose reports inside a store operation count as a non-atomic operation - are searched for a linearization (LinTrace.tla), pairs of Redis operations at command granularity (RedisStore.tla); the reference's invariant is shown inductive by Apalache (SessionMapInd.tla, thorough tier).",
+         "concurrent memory-store histories - also over sessions that have timed out and with the store's clean-up running, then in a race-detector build of the harness whose reports inside a store operation count as a non-atomic operation - are searched for a linearization (LinTrace.tla); the memory store's mutex and critical sections are model-checked for serializability of every interleaving of every three operations (MemStore.tla) and that model's whole operation family (648 histories) is run concurrently on the real store and judged by LinTrace.tla; pairs of Redis operations at command granularity (RedisStore.tla); the reference's invariant is shown inductive by Apalache (SessionMapInd.tla, thorough tier).",
          "TLC state-graph-covering test generation from SessionMap + strict TLC trace validation of store operations"),
  "C13": ("model_checking", "6 C13",
          "Configurations with reserved/non-ASCII characters x URLs (TLC-enumerated); Location values are parsed with net/url, mapped to symbols, and TLC judges endpoint, own query, exact parameter map, S256 of the stored verifier, the restored URL and no-cache headers.",
